@@ -3,6 +3,7 @@
 set -e
 export CARGO_NET_OFFLINE=true
 mkdir -p /verif/logs /verif/evidence /verif/replays
+python3 /verif/hooked_copy.py -v
 cd /verif/harness
 cargo build --release --offline --bins 2>&1 | tail -3
 for v in pb plain; do
